@@ -703,3 +703,77 @@ def ellipsoid_area(a, b, c):
     mp = _mp()
     a, b, c = mp.mpf(float(a)), mp.mpf(float(b)), mp.mpf(float(c))
     return float(4 * mp.pi * mp.elliprg((a * b) ** 2, (b * c) ** 2, (a * c) ** 2))
+
+
+# ---------------------------------------------------------------------------
+# exact hull of integer points (no band, no rounding): for inputs nearer to degeneracy than any float oracle can judge
+# ---------------------------------------------------------------------------
+
+def hull_exact_int(Pint):
+    """Facets of the convex hull of integer points, decided with Python integers.
+
+    Returns (facets, normals_int) with each facet the sorted tuple of indices of the points on one supporting plane and
+    ``normals_int`` its outward integer normal (not normalised), or raises DegenerateInput if the points are not all
+    vertices / the facets do not close up.  O(n^4): meant for n <= 16."""
+    P = [tuple(int(x) for x in p) for p in Pint]
+    n = len(P)
+    facets = {}
+    for i, j, k in itertools.combinations(range(n), 3):
+        a, b, c = P[i], P[j], P[k]
+        u = (b[0] - a[0], b[1] - a[1], b[2] - a[2])
+        v = (c[0] - a[0], c[1] - a[1], c[2] - a[2])
+        nx, ny, nz = u[1] * v[2] - u[2] * v[1], u[2] * v[0] - u[0] * v[2], u[0] * v[1] - u[1] * v[0]
+        if nx == 0 and ny == 0 and nz == 0:
+            continue
+        d0 = nx * a[0] + ny * a[1] + nz * a[2]
+        pos = neg = False
+        on = []
+        for t, p in enumerate(P):
+            d = nx * p[0] + ny * p[1] + nz * p[2] - d0
+            if d > 0:
+                pos = True
+            elif d < 0:
+                neg = True
+            else:
+                on.append(t)
+            if pos and neg:
+                break
+        if pos and neg:
+            continue
+        key = tuple(on)
+        if key not in facets:
+            facets[key] = (-nx, -ny, -nz) if pos else (nx, ny, nz)
+    fs = sorted(facets)
+    edges = {}
+    used = set()
+    for f in fs:
+        used.update(f)
+    if len(used) != n:
+        raise DegenerateInput("a point is not a vertex of the hull")
+    return fs, [facets[f] for f in fs]
+
+
+def facet_area2_int(Pint, cyc):
+    """4 * area^2 of the planar polygon with integer vertices listed in cyclic order (exact integer)."""
+    P = [tuple(int(x) for x in Pint[i]) for i in cyc]
+    sx = sy = sz = 0
+    a = P[0]
+    for i in range(1, len(P) - 1):
+        u = (P[i][0] - a[0], P[i][1] - a[1], P[i][2] - a[2])
+        v = (P[i + 1][0] - a[0], P[i + 1][1] - a[1], P[i + 1][2] - a[2])
+        sx += u[1] * v[2] - u[2] * v[1]
+        sy += u[2] * v[0] - u[0] * v[2]
+        sz += u[0] * v[1] - u[1] * v[0]
+    return sx * sx + sy * sy + sz * sz
+
+
+def hull_from_exact(P, Pint):
+    """Hull object (cycles CCW about the outward normal, float unit normals) from the exact facets of integer points."""
+    P = np.asarray(P, float)
+    facets, normals = hull_exact_int(Pint)
+    fl, nl = [], []
+    for f, N in zip(facets, normals):
+        nf = np.array([float(x) for x in N]) / math.sqrt(float(N[0] * N[0] + N[1] * N[1] + N[2] * N[2]))
+        fl.append(_order_facet(P, list(f), nf))
+        nl.append(nf)
+    return Hull(P, fl, np.array(nl), np.array([float(np.mean(P[f] @ n)) for f, n in zip(fl, nl)]))
